@@ -8,8 +8,11 @@
   `IsGradAt f x g  :=  ∀ d, HasDerivAt (t ↦ f (x + t d)) (Re⟪g,d⟫) 0`  — what C07 asks of `f.grad(x)`;
   `JaxContract f x jg := ∀ d, HasDerivAt (t ↦ f (x + t d)) (Re Σ jgᵢ dᵢ) 0` — what `jax.grad` promises.
   A real array is a complex one with zero imaginary parts, so every statement covers both dtypes.
+  `Tangent c d` : the curve `c : ℝ → ℂⁿ` is differentiable at `0` with velocity `d` (real and imaginary
+  part of every component); `IsCurveGradAt f x g := ∀ c d, c 0 = x → Tangent c d → HasDerivAt (f ∘ c) (Re⟪g,d⟫) 0`
+  (the gradient along every differentiable curve through `x`, not only along lines).
 -/
-import Scico.Proofs.AutogradDeriv
+import Scico.Proofs.AutogradChain
 import Scico.Proofs.AutogradComplex
 
 namespace Scico.Props.C07
@@ -93,7 +96,7 @@ theorem C07_vjp_real_input_matrix (A : Mat ℝ m n) (v : CVec ℝ m) :
   simp only [vjpWrap, if_true] at h ⊢
   rw [← h]
   funext i
-  apply Cx.ext' <;> simp [conjVec, realPart]
+  apply Cx.ext' <;> simp [conjVec, Autograd.realPart]
 
 /-- for a ℂ-linear Jacobian (`G` its plain transpose) `Gmap` is the complex adjoint,
     and without the conjugate flag it is the transpose -/
@@ -171,7 +174,7 @@ theorem C07_linear_adjoint_real {K : Type} [CommRing K] (T : (CVec K n → CVec 
 
 /-- EXACT for all `x`, `d`, real or complex, any field of characteristic 0 with an order:
     `f(x+d) = f(x) + Re⟪g,d⟫ + ½ Re⟪H d,d⟫` with `g = f.grad(x)` and `H = f.hessian` -/
-theorem C07_quadratic {K : Type} [Field K] [LinearOrder K] [IsStrictOrderedRing K] [HasSqrt K]
+theorem C07_quadratic {K : Type} [Field K] [LinearOrder K] [IsStrictOrderedRing K] [HasSqrt K] [HasLog K]
     (α : K) (A : Mat K m n) (y : CVec K m) (w : Vec K m) (x d : CVec K n) :
     (Fn.sqL2Loss α A y w).eval (vadd x d) =
       (Fn.sqL2Loss α A y w).eval x + reInner ((Fn.sqL2Loss α A y w).grad x) d
@@ -180,7 +183,7 @@ theorem C07_quadratic {K : Type} [Field K] [LinearOrder K] [IsStrictOrderedRing 
 
 /-- the model gradient is the documented `2αAᴴW(Ax−y)`; `hessian` applies the documented
     `2αAᴴWA`, which is Hermitian, and positive semi-definite for `α ≥ 0`, `W ≥ 0` -/
-theorem C07_quadratic_formulas {K : Type} [Field K] [LinearOrder K] [IsStrictOrderedRing K] [HasSqrt K]
+theorem C07_quadratic_formulas {K : Type} [Field K] [LinearOrder K] [IsStrictOrderedRing K] [HasSqrt K] [HasLog K]
     (α : K) (A : Mat K m n) (y : CVec K m) (w : Vec K m) (x d : CVec K n) :
     (Fn.sqL2Loss α A y w).grad x = sqL2LossGradSpec α A y w x ∧
     hessianApply α A w x = mulVec (hessianMat α A w) x ∧
@@ -217,10 +220,12 @@ theorem C07_hessian (α : ℝ) (A : Mat ℝ m n) (y : CVec ℝ m) (w : Vec ℝ m
 
 /-- **Main theorem.**  For every expression built from the smooth functionals (`SquaredL2Norm`,
     `L2Norm`, `L1Norm`, `HuberNorm` both forms, `L1MinusL2Norm`, `L21Norm`, `ZeroFunctional`,
-    `SquaredL2Loss`, `SquaredL2SquaredAbsLoss`) by scaling (`c*f`), sums (`f+g`), separable
-    combination over blocks, and `Loss(y, A, f, scale)` (loss ∘ affine operator), to any depth, the
-    model's `grad` — the conjugate of the gradient produced by JAX's rules — is the true gradient
-    at every point of the smoothness domain. -/
+    `SquaredL2Loss`, `SquaredL2SquaredAbsLoss`, `SquaredL2AbsLoss`, `PoissonLoss`) by scaling (`c*f`),
+    sums (`f+g`), separable combination over blocks, `Loss(y, A, f, scale)` (loss ∘ affine operator;
+    with `A` a finite-difference matrix and `f` the l1 / l2,1 norm these are the TV norms) and
+    `Loss(y, F, f, scale)` / `SquaredL2Loss(y, F, …)` with a **nonlinear** operator `F`, to any depth,
+    the model's `grad` — the conjugate of the gradient produced by JAX's rules — is the true
+    gradient at every point of the smoothness domain. -/
 theorem C07_scaled_sum (f : Fn ℝ n) (x : CVec ℝ n) (h : f.Smooth x) : IsGradAt f.eval x (f.grad x) :=
   f.isGradAt x h
 
@@ -229,6 +234,97 @@ theorem C07_scaled_sum (f : Fn ℝ n) (x : CVec ℝ n) (h : f.Smooth x) : IsGrad
 theorem C07_jax_contract (f : Fn ℝ n) (x : CVec ℝ n) (h : f.Smooth x) :
     JaxContract f.eval x (f.jaxGrad x) :=
   f.jaxContract x h
+
+/-- stronger than the property asks: the same along **every differentiable curve** through `x`
+    (this is what makes the induction go through a nonlinear operator, where `t ↦ F(x+td)` is a
+    curve, not a line) -/
+theorem C07_curve (f : Fn ℝ n) (x : CVec ℝ n) (h : f.Smooth x) : IsCurveGradAt f.eval x (f.grad x) :=
+  f.isCurveGradAt x h
+
+/-- chain rule, gradient form, through an affine map — real and complex:
+    `grad(s·φ(A· − y))(x) = s·Aᴴ·grad φ(Ax − y)` for ANY `φ` with a gradient at `Ax − y` -/
+theorem C07_chain_linear (s : ℝ) (A : Mat ℝ m n) (y : CVec ℝ m) (φ : CVec ℝ m → ℝ) (x : CVec ℝ n)
+    (g : CVec ℝ m) (h : IsGradAt φ (vsub (mulVec A x) y) g) :
+    IsGradAt (fun z => s * φ (vsub (mulVec A z) y)) x (vsmul s (mulVec (adjMat A) g)) :=
+  isGradAt_comp_affine s A y φ x g h
+
+/-- chain rule, gradient form, through a **nonlinear** operator `F` under JAX's contracts at `x`:
+    `J d` (second component of `F.jvp(x, d)`) is the derivative of `F` along `d`, `G` (`jax.vjp`) is
+    the transpose of `J` for `Re Σ aᵢbᵢ`; `φ` has a gradient `g` along curves at `F x − y`.  Then
+    `grad(s·φ(F(·) − y))(x) = s·Gmap(g)` with `Gmap = F.vjp(x, conjugate=True)[1]` — for holomorphic
+    and non-holomorphic `F`, real or complex data. -/
+theorem C07_chain_nonlinear (s : ℝ) (F J : CVec ℝ n → CVec ℝ m) (G : CVec ℝ m → CVec ℝ n)
+    (y : CVec ℝ m) (φ : CVec ℝ m → ℝ) (x : CVec ℝ n) (g : CVec ℝ m)
+    (hJ : ∀ d, Tangent (fun t => F (along x d t)) (J d))
+    (hG : ∀ c d, reBdot (G c) d = reBdot c (J d))
+    (h : IsCurveGradAt φ (vsub (F x) y) g) :
+    IsGradAt (fun z => s * φ (vsub (F z) y)) x (vsmul s (vjpWrap true G g)) :=
+  isGradAt_comp_operator s F J G y φ x g hJ hG h
+
+/-- the operator family `F(x) = Ax + B conj(x) + (Cx)² + c` of the correspondence: `Op.jvp` **is** the
+    derivative of `F` along every line (so "jvp agrees with finite differences" is a theorem for
+    it), `Op.vjpT` is its transpose for JAX's pairing, hence `Gmap` is the adjoint of the
+    Jacobian-vector product — no hypothesis left; these discharge `hJ`, `hG` of `C07_chain_nonlinear`. -/
+theorem C07_operator_jacobian (F : Op ℝ n m) (u v : CVec ℝ n) (w : CVec ℝ m) :
+    Tangent (fun t => F.eval (along u v t)) (F.jvp u v) ∧
+    (∀ c d, reBdot (F.vjpT u c) d = reBdot c (F.jvp u d)) ∧
+    reInner (vjpWrap true (F.vjpT u) w) v = reInner w (F.jvp u v) := by
+  refine ⟨?_, op_vjpT_transpose F u, vjp_conj_real_adjoint (F.jvp u) (F.vjpT u) (op_vjpT_transpose F u) w v⟩
+  have h := tangent_op F (tangent_along u v)
+  simp only [along_zero] at h
+  exact h
+
+/-- `L21Norm` after a linear map (isotropic TV: `A` = finite differences) with the guarded
+    `_l2norm` of the code: at every `x` where each group of `Ax − y` is non-zero **or structurally
+    zero** (its rows of `A` and entries of `y` vanish — the zero-padded boundary differences of
+    `IsotropicTVNorm(circular=False)`), `grad` is the gradient.  (Before repair 66922fe the code
+    returned NaN there.) -/
+theorem C07_group_norm_structural_zero (s : ℝ) (A : Mat ℝ m n) (y : CVec ℝ m) (grp : Fin m → Fin k)
+    (x : CVec ℝ n)
+    (h : ∀ g, groupAbs2 grp (vsub (mulVec A x) y) g ≠ 0 ∨ ∀ i, grp i = g → (y i = 0 ∧ ∀ j, A i j = 0)) :
+    IsGradAt (Fn.loss s A y (Fn.l21 k grp)).eval x ((Fn.loss s A y (Fn.l21 k grp)).grad x) :=
+  (Fn.loss s A y (Fn.l21 k grp)).isGradAt_of_lines x (smoothLines_loss_l21 s A y grp x h)
+
+/-- `L1Norm` after a linear map (anisotropic TV): entries of `Ax − y` non-zero or structurally zero -/
+theorem C07_l1_structural_zero (s : ℝ) (A : Mat ℝ m n) (y : CVec ℝ m) (x : CVec ℝ n)
+    (h : ∀ i, Cx.abs2 (vsub (mulVec A x) y i) ≠ 0 ∨ (y i = 0 ∧ ∀ j, A i j = 0)) :
+    IsGradAt (Fn.loss s A y Fn.l1).eval x ((Fn.loss s A y Fn.l1).grad x) :=
+  (Fn.loss s A y Fn.l1).isGradAt_of_lines x (smoothLines_loss_l1 s A y x h)
+
+/-- more generally: smoothness along every line through `x` suffices -/
+theorem C07_smooth_lines (f : Fn ℝ n) (x : CVec ℝ n) (h : f.SmoothLines x) : IsGradAt f.eval x (f.grad x) :=
+  f.isGradAt_of_lines x h
+
+/-- `PoissonLoss` (real data, `Ax > 0`) and `SquaredL2AbsLoss` (`Ax` without zero entry): the
+    gradients are the documented `s·Aᴴ(1 − y/(Ax))` and `−2s·Aᴴ W (y − |Ax|)·Ax/|Ax|` -/
+theorem C07_deriv_poisson_abs (s : ℝ) (A : Mat ℝ m n) (y w cst : Vec ℝ m) (x : CVec ℝ n) :
+    ((∀ i, 0 < (mulVec A x i).re) →
+      IsGradAt (Fn.poisson s A y cst).eval x
+        (vsmul s (mulVec (adjMat A) (fun i => Cx.ofReal (1 - y i / (mulVec A x i).re))))) ∧
+    ((∀ i, Cx.abs2 (mulVec A x i) ≠ 0) →
+      IsGradAt (Fn.sqL2AbsLoss s A y w).eval x
+        (vsmul s (mulVec (adjMat A) (fun i => Cx.smul (-(2 * w i * (y i - Cx.abs (mulVec A x i))))
+          (Cx.divr (mulVec A x i) (Cx.abs (mulVec A x i))))))) := by
+  constructor
+  · intro h
+    have hg := (Fn.poisson s A y cst).isGradAt x h
+    have e : (Fn.poisson s A y cst).grad x =
+        vsmul s (mulVec (adjMat A) (fun i => Cx.ofReal (1 - y i / (mulVec A x i).re))) := by
+      simp only [Fn.grad, Fn.jaxGrad]
+      rw [grad_through_matrix]
+      congr 2
+      funext i; apply Cx.ext' <;> simp [conjVec]
+    rwa [e] at hg
+  · intro h
+    have hg := (Fn.sqL2AbsLoss s A y w).isGradAt x h
+    have e : (Fn.sqL2AbsLoss s A y w).grad x =
+        vsmul s (mulVec (adjMat A) (fun i => Cx.smul (-(2 * w i * (y i - Cx.abs (mulVec A x i))))
+          (Cx.divr (mulVec A x i) (Cx.abs (mulVec A x i))))) := by
+      simp only [Fn.grad, Fn.jaxGrad]
+      rw [grad_through_matrix]
+      congr 2
+      funext i; apply Cx.ext' <;> simp [conjVec, two_eq, neg_div]
+    rwa [e] at hg
 
 /-- the gradients of `c·f` and `f+g` are the corresponding combinations -/
 theorem C07_combinations (c : ℝ) (f g : Fn ℝ n) (x : CVec ℝ n) :
@@ -318,7 +414,8 @@ theorem C07_deriv_l1 (x : CVec ℝ n) (hx : ∀ i, Cx.abs2 (x i) ≠ 0) :
     funext z; simp [Fn.eval, vsum_eq, Cx.abs, hasSqrt_real]
   have hg : (Fn.l1 : Fn ℝ n).grad x = fun i => Cx.divr (x i) (Real.sqrt (Cx.abs2 (x i))) := by
     funext i
-    apply Cx.ext' <;> simp [Fn.grad, Fn.jaxGrad, scicoGrad, conjVec, Cx.abs, hasSqrt_real, neg_div]
+    simp only [Fn.grad, Fn.jaxGrad, scicoGrad, conjVec, absGrad_of_ne _ (hx i)]
+    apply Cx.ext' <;> simp [Cx.abs, hasSqrt_real, neg_div]
   rwa [hf, hg] at h
 
 /-- Huber norm, separable form, **everywhere** (threshold `|xᵢ| = δ` and `xᵢ = 0` included):
@@ -371,7 +468,7 @@ theorem C07_real_argument (f : Fn ℝ n) (x : CVec ℝ n) (h : f.Smooth x) (d : 
     HasDerivAt (fun t : ℝ => f.eval (along x d t)) (reInner (f.gradRealArg x) d) 0 ∧
     (∀ i, (f.gradRealArg x i).im = 0) := by
   refine ⟨f.isGradAt_realArg x h d hd, fun i => ?_⟩
-  simp [Fn.gradRealArg, scicoGrad, conjVec, realPart]
+  simp [Fn.gradRealArg, scicoGrad, conjVec, Autograd.realPart]
 
 /-! ## argument slots of `Function` and `cvjp` -/
 
@@ -429,6 +526,41 @@ example (M : Mat ℝ 2 3) : ∀ y x, bdot (mulVec (transpose (conjMat M)) y) x =
 -- a history with three live objects
 example : (Heap.run ([] : Heap Nat) [.new 1, .mul 0 2, .setScale 0 5, .mul 1 3]).evalScale 2 = some 6 := by
   decide
+
+-- `C07_chain_nonlinear`: its hypotheses hold for a concrete non-holomorphic quadratic operator
+-- (`F(x) = x + i·conj(x) + x²` on ℂ¹) and the Huber norm as `φ`
+example : let F : Op ℝ 1 1 := ⟨fun _ _ => ⟨1, 0⟩, fun _ _ => ⟨0, 1⟩, fun _ _ => ⟨1, 0⟩, fun _ => 0⟩
+    let x : CVec ℝ 1 := fun _ => ⟨1, 2⟩
+    (∀ d, Tangent (fun t => F.eval (along x d t)) (F.jvp x d)) ∧
+    (∀ c d, reBdot (F.vjpT x c) d = reBdot c (F.jvp x d)) ∧
+    IsCurveGradAt (Fn.huber 1 false : Fn ℝ 1).eval (vsub (F.eval x) 0)
+      ((Fn.huber 1 false : Fn ℝ 1).grad (vsub (F.eval x) 0)) := by
+  intro F x
+  exact ⟨fun d => (C07_operator_jacobian F x d 0).1, fun c d => (C07_operator_jacobian F x 0 0).2.1 c d,
+    C07_curve _ _ (by simp [Fn.Smooth])⟩
+
+-- `C07_group_norm_structural_zero`: a 1-D non-circular difference `[x₁−x₀, 0]` with one group per row:
+-- the second group is structurally zero, the first is non-zero at `x = (0, 1)`
+example : let A : Mat ℝ 2 2 := fun i j => if i = 0 then (if j = 0 then ⟨-1, 0⟩ else ⟨1, 0⟩) else 0
+    let x : CVec ℝ 2 := fun j => if j = 0 then 0 else ⟨1, 0⟩
+    ∀ g : Fin 2, groupAbs2 (fun i : Fin 2 => i) (vsub (mulVec A x) 0) g ≠ 0 ∨
+      ∀ i : Fin 2, i = g → ((0 : CVec ℝ 2) i = 0 ∧ ∀ j, A i j = 0) := by
+  intro A x g
+  fin_cases g
+  · left
+    simp [groupAbs2_eq, Fin.sum_univ_two, vsub, mulVec_eq, Cx.abs2, A, x]
+  · right
+    intro i hi
+    subst hi
+    exact ⟨rfl, fun j => by simp [A]⟩
+
+-- Poisson / abs-loss smoothness domains are inhabited (identity operator, positive point)
+example : (Fn.poisson (n := 1) (m := 1) 2 (fun _ _ => ⟨1, 0⟩) (fun _ => 3) (fun _ => 0) : Fn ℝ 1).Smooth (fun _ => ⟨2, 0⟩) := by
+  simp [Fn.Smooth, mulVec_eq]
+
+example : (Fn.sqL2AbsLoss (n := 1) (m := 1) 2 (fun _ _ => ⟨0, 1⟩) (fun _ => 3) (fun _ => 1) : Fn ℝ 1).Smooth (fun _ => ⟨2, 1⟩) := by
+  simp [Fn.Smooth, mulVec_eq, Cx.abs2]
+  norm_num
 
 -- slot plumbing on a concrete argument list
 example : sliceArgs 1 (fixArgs 1 [10, 20, 30]) 99 = [10, 99, 30] := by decide
